@@ -35,6 +35,32 @@ fn main() {
     }
     let verif_dir = std::env::var("VERIF_DIR").unwrap_or_else(|_| "/verif".to_string());
     match args[1].as_str() {
+        "seamtest" => {
+            // every entropy consumer must follow the seam: two armed draws with one seed are equal,
+            // different seeds differ, and a disarmed draw is real
+            fn draw(seed: u64) -> (Vec<u8>, Vec<u8>) {
+                std::thread::spawn(move || {
+                    seams::enter(seed);
+                    let kp = litep2p::crypto::ed25519::Keypair::generate(); // rand OsRng -> getrandom 0.2 -> syscall()
+                    let mut b = [0u8; 16];
+                    unsafe { libc::getrandom(b.as_mut_ptr() as *mut _, 16, 0) };
+                    let h = {
+                        use std::hash::{BuildHasher, Hasher};
+                        std::collections::hash_map::RandomState::new().build_hasher().finish()
+                    };
+                    seams::leave();
+                    (kp.public().to_bytes().to_vec(), [b.to_vec(), h.to_le_bytes().to_vec()].concat())
+                })
+                .join()
+                .unwrap()
+            }
+            let (a, b, c) = (draw(7), draw(7), draw(8));
+            let real1 = litep2p::crypto::ed25519::Keypair::generate().public().to_bytes();
+            let real2 = litep2p::crypto::ed25519::Keypair::generate().public().to_bytes();
+            let ok = a == b && a.0 != c.0 && a.1 != c.1 && real1 != real2;
+            println!("seamtest: same-seed-equal={} diff-seed-differs={} real-differs={}", a == b, a.0 != c.0, real1 != real2);
+            std::process::exit(if ok { 0 } else { 2 });
+        }
         "list" => {
             for p in props::all() {
                 println!("{}", p.id());
